@@ -226,7 +226,59 @@ def consistent_lengths(p: Path, obj: str, candidates=(0, 1, 2, 3)) -> List[int]:
                 facts.append(lambda L, f=_CMP[type(t.ops[0])], c=l.value, pol=pol: f(c, L) == pol)
         elif isinstance(t, ast.Call) and show(t.func) == "len" and show(t.args[0]) == obj:
             facts.append(lambda L, pol=pol: (L > 0) == pol)
+    # iterating the list (or a tail slice of it) also tells its length: exhausted after k rounds / at least k+1 rounds
+    for e in evs:
+        if e.kind in ("iter", "exhaust") and e.x.get("loop", "for") == "for" and e.term is not None:
+            t = e.term
+            off = None
+            if show(t) == obj:
+                off = 0
+            elif isinstance(t, ast.Subscript) and show(t.value) == obj and isinstance(t.slice, ast.Slice) and t.slice.upper is None and t.slice.step is None \
+                    and isinstance(t.slice.lower, ast.Constant) and type(t.slice.lower.value) is int and t.slice.lower.value >= 0:
+                off = t.slice.lower.value
+            if off is None:
+                continue
+            k = e.x.get("k", 0)
+            if e.kind == "exhaust":
+                facts.append(lambda L, k=k, off=off: max(L - off, 0) == k)
+            else:
+                facts.append(lambda L, k=k, off=off: L - off >= k + 1)
     return [L for L in candidates if all(f(L) for f in facts)]
+
+
+def fold_of(t: ast.AST, evs) -> Optional[Tuple[str, str, int]]:
+    """(function, list, n_elements) when `t` is the left fold of a list by a binary function: `reduce(f, xs)`, or the
+    value built by `acc = xs[0]; for x in xs[1:]: acc = f(acc, x)` after n-1 rounds: f(f(xs[0], xs[1:][$k0]), xs[1:][$k1])."""
+    t1 = expand1(t, evs) if isinstance(t, ast.Name) and t.id.startswith("$c") else t
+    if isinstance(t1, ast.Call) and show(t1.func) in ("reduce", "functools.reduce") and len(t1.args) == 2:
+        return show(t1.args[0]), show(t1.args[1]), -1
+    n = 0
+    cur = t1
+    fname = None
+    lst = None
+    while True:
+        c = expand1(cur, evs) if isinstance(cur, ast.Name) and cur.id.startswith("$c") else cur
+        if isinstance(c, ast.Call) and len(c.args) == 2 and not c.keywords:
+            f = show(c.func)
+            if fname is None:
+                fname = f
+            if f != fname:
+                return None
+            right = c.args[1]
+            if not (isinstance(right, ast.Subscript) and show(right.slice).startswith("$k") and isinstance(right.value, ast.Subscript)
+                    and isinstance(right.value.slice, ast.Slice) and show(right.value.slice) == "1:"):
+                return None
+            l_ = show(right.value.value)
+            if lst is None:
+                lst = l_
+            if l_ != lst:
+                return None
+            n += 1
+            cur = c.args[0]
+            continue
+        if isinstance(c, ast.Subscript) and isinstance(c.slice, ast.Constant) and c.slice.value == 0 and fname is not None and show(c.value) == lst:
+            return fname, lst, n + 1
+        return None
 
 
 def call_value(ctx, call: ast.Call, fn) -> Optional[ast.AST]:
@@ -326,3 +378,103 @@ def executor_collect(ctx, fn) -> List[Collect]:
             out.append(compose_source(ctx, c, fn))
     return out
 
+
+def eq_implies(ctx, fn, required, paths_kw=None):
+    """Does `fn` (an __eq__) answer True only when `self.A == other.A` holds for every A in `required`?
+    The returned expression of every path is read as a boolean function: comparisons `self.A == other.A` are the atoms
+    A, every other leaf is a free atom.  -> (ok, description, atoms seen)"""
+    import itertools
+    from . import boolfn
+
+    other = fn.params[1] if len(fn.params) > 1 else "other"
+    descs, seen = [], set()
+    ok_all = True
+    for p in ctx.paths(fn, inline=None, exc_edges="none", **(paths_kw or {})):
+        if p.kind != "return":
+            continue
+        v = expand(p.value, p.events)
+        descs.append(show(v))
+        free = {}
+
+        def atom(x, free=free):
+            if isinstance(x, (ast.BoolOp, ast.IfExp, ast.Constant)) or (isinstance(x, ast.UnaryOp) and isinstance(x.op, ast.Not)):
+                return None
+            if isinstance(x, ast.Compare) and len(x.ops) == 1 and isinstance(x.ops[0], ast.Eq):
+                l, r = show(x.left), show(x.comparators[0])
+                for side_a, side_b in ((l, r), (r, l)):
+                    if side_a.startswith("self.") and side_b == f"{other}.{side_a[5:]}":
+                        seen.add(side_a[5:])
+                        return "EQ_" + side_a[5:]
+            if isinstance(x, ast.Name) and x.id == "NotImplemented":
+                return "FREE_NotImplemented"
+            return free.setdefault(show(x), f"FREE_{len(free)}")
+
+        # collect the atoms first (evaluate once with a recording valuation)
+        class _Rec(dict):
+            def __missing__(self, k):
+                self[k] = True
+                return True
+
+        rec = _Rec()
+        try:
+            boolfn.evaluate(v, atom, rec)
+        except boolfn.Unrecognised:
+            return False, f"unrecognised equality `{show(v)}`", seen
+        names = sorted(set(rec) | {f"EQ_{a}" for a in required})
+        for combo in itertools.product([True, False], repeat=len(names)):
+            val = dict(zip(names, combo))
+            try:
+                res = bool(boolfn.evaluate(v, atom, dict(val)))
+            except boolfn.Unrecognised:
+                return False, f"unrecognised equality `{show(v)}`", seen
+            if res and not all(val[f"EQ_{a}"] for a in required):
+                ok_all = False
+    if not descs:
+        return False, "no returning path", seen
+    return ok_all and all(a in seen for a in required), " | ".join(descs), seen
+
+
+@dataclass
+class ClosureModel:
+    """What a builder hands out as a callable: a nested function closing over the builder's locals, or an instance of a
+    class with `__call__` whose fields hold them.  Both are analysed alike: `paths()` enumerates the body that runs at
+    call time with the captured values substituted (free variables, or `self.<field>` through the constructor's stores)."""
+    builder: object
+    fn: object
+    obj: str
+    attrs: Dict[str, Tuple[ast.AST, Ev]]
+    bindings: Optional[dict]
+    events: tuple
+
+    def paths(self, ctx, **kw):
+        return ctx.paths(self.fn, bindings=self.bindings, **kw)
+
+
+def closure_models(ctx, builder, bindings=None) -> List[ClosureModel]:
+    out: Dict[str, ClosureModel] = {}
+    for p in ctx.paths(builder, inline=None, exc_edges="none", bindings=bindings):
+        if p.kind != "return" or not isinstance(p.value, ast.Name):
+            continue
+        oid = p.value.id
+        if oid in out:
+            continue
+        fn = None
+        binds = None
+        if oid.startswith("$def:"):
+            q = oid[len("$def:"):].split("@")[0]
+            fn = next((f for f in builder.module.all_functions if f.qualname == q and not isinstance(f.node, ast.Lambda)), None)
+        elif oid.startswith("$new:"):
+            cname = oid[len("$new:"):].split("@")[0]
+            c = ctx.p.classes.get(cname)
+            fn = ctx.p.lookup_method(c, "__call__") if c is not None else None
+            if fn is not None:
+                heap = {k_: v for k_, v in p.heap.items() if k_[0] == oid}
+                binds = {fn.params[0]: ast.Name(id=oid, ctx=ast.Load()), "$heap": heap}
+        if fn is None:
+            continue
+        attrs = {}
+        for e in p.of("store"):
+            if isinstance(e.term, ast.Attribute) and isinstance(e.term.value, ast.Name) and e.term.value.id == oid:
+                attrs[e.x.get("attr")] = (e.x["value"], e)
+        out[oid] = ClosureModel(builder, fn, oid, attrs, binds, p.events)
+    return list(out.values())
